@@ -12,6 +12,7 @@
   which re-reads every live object after every operation (read-only flags, no shared memory: corr-only).
 -/
 import PW.Model.PolylineOps
+import PW.Gen.PolyOps
 import PW.Lemmas.PolylineOps
 import PW.Lemmas.Vec
 import Mathlib.Data.List.Basic
@@ -847,5 +848,153 @@ example : ∃ (p : Polyline ℚ) (points : List (V3 ℚ)) (indices : List Int),
 
 example : ∃ (p : Polyline ℚ) (bps : List Int), p.closed = false ∧ ∀ r ∈ sectionRanges p.numV bps, 1 ≤ r.2 - r.1 - 1 :=
   ⟨⟨[⟨0, 0, 0⟩, ⟨1, 0, 0⟩, ⟨2, 0, 0⟩], false⟩, [1], rfl, by simp [sectionRanges, Polyline.numV]⟩
+
+/-! ## what the model takes from the source
+
+`harness/translate/c09.py` reads the edge rule of `edges_for` (`polliwog/polyline/_edges.py`) and the index arithmetic
+of `rolled`, `sliced_at_indices`, `sectioned`, `with_insertions`, `flipped`, `join`, `index_of_vertex`, `aligned_with`
+(`polliwog/polyline/_polyline_object.py`) out of the source text into `PW/Gen/PolyOps.lean` on every run (local names
+replaced by what they were assigned; NUM_E, STARTS, ENDS, BP, NORM, ORDER, K are structural labels).  The theorems below
+state that each generated value is the one the hand-written models `PW/Model/PolylineBase.lean` and
+`PW/Model/PolylineOps.lean` were written from — and, where the literal is a Lean literal of the model, that the model
+computes with exactly the generated value — so that an edit of one of them in the source breaks a proof obligation. -/
+
+/-- `edges_for`: `num_e = num_v if is_closed else num_v - 1`; empty when `num_e == 0`; edge `i` is `(i, i + 1)`; closed:
+    `edges[-1][1] = 0`.  The model's `edgesFor` computes with exactly the generated offsets and stored value. -/
+theorem gen_edges_for :
+    (PW.Gen.PolyOps.numEClosedSrc = "num_v" ∧ PW.Gen.PolyOps.numEOpenCoef = 1 ∧ PW.Gen.PolyOps.numEOpenTerm = "num_v" ∧
+      PW.Gen.PolyOps.numEOpenOffset = -1 ∧ PW.Gen.PolyOps.emptyCmp = .eq ∧ PW.Gen.PolyOps.emptyRhs = 0 ∧
+      PW.Gen.PolyOps.nextCoef = 1 ∧ PW.Gen.PolyOps.nextOffset = 1 ∧ PW.Gen.PolyOps.closeRow = -1 ∧
+      PW.Gen.PolyOps.closeCol = 1 ∧ PW.Gen.PolyOps.closeValue = 0) ∧
+    (PW.Gen.PolyOps.emptySrc = "np.zeros((0, 2), dtype=EDGE_DTYPE)" ∧
+      PW.Gen.PolyOps.firstColumnSrc = "np.arange(NUM_E, dtype=EDGE_DTYPE)" ∧ PW.Gen.PolyOps.edgeDtype = "np.int64") ∧
+    ∀ (numV : Nat) (closed : Bool), edgesFor numV closed =
+      (let numE : Nat := if closed then numV
+         else (PW.Gen.PolyOps.numEOpenCoef * (numV : Int) + PW.Gen.PolyOps.numEOpenOffset).toNat
+       (List.range numE).map fun i =>
+         (i, if closed && i + 1 == numE then PW.Gen.PolyOps.closeValue.toNat
+             else (PW.Gen.PolyOps.nextCoef * (i : Int) + PW.Gen.PolyOps.nextOffset).toNat)) := by
+  refine ⟨by decide, ⟨rfl, rfl, rfl⟩, ?_⟩
+  intro numV closed
+  have h1 : ((1 : Int) * (numV : Int) + -1).toNat = numV - 1 := by omega
+  have h2 : ∀ i : Nat, ((1 : Int) * (i : Int) + 1).toNat = i + 1 := by intro i; omega
+  simp only [edgesFor, PW.Gen.PolyOps.numEOpenCoef, PW.Gen.PolyOps.numEOpenOffset, PW.Gen.PolyOps.closeValue,
+    PW.Gen.PolyOps.nextCoef, PW.Gen.PolyOps.nextOffset, h1, h2, Int.toNat_zero]
+
+/-- `rolled(index)`: refused with `ValueError` for an open polyline; `np.roll(self.v, -index, axis=0)`, closed, and the
+    edge mapping `np.roll(np.arange(num_v), -index)`: the model's `rolled` rolls by exactly the generated amount. -/
+theorem gen_rolled :
+    (PW.Gen.PolyOps.rollRefusesWhen = "not self.is_closed" ∧ PW.Gen.PolyOps.rollRaises = "ValueError" ∧
+      PW.Gen.PolyOps.rollCoef = -1 ∧ PW.Gen.PolyOps.rollTerm = "index" ∧ PW.Gen.PolyOps.rollOffset = 0 ∧
+      PW.Gen.PolyOps.rollMappingSameShift = true ∧ PW.Gen.PolyOps.rolledIsClosed = true ∧
+      PW.Gen.PolyOps.rolledSamePolyline = true) ∧
+    ∀ (p : Polyline K) (index : Int), p.rolled index =
+      if !p.closed then .error .ValueError
+      else .ok (⟨npRoll p.v (PW.Gen.PolyOps.rollCoef * index + PW.Gen.PolyOps.rollOffset), PW.Gen.PolyOps.rolledIsClosed⟩,
+                npRoll (List.range p.numV) (PW.Gen.PolyOps.rollCoef * index + PW.Gen.PolyOps.rollOffset)) := by
+  refine ⟨⟨rfl, rfl, by decide, rfl, by decide, by decide, by decide, by decide⟩, ?_⟩
+  intro p index
+  simp [rolled, PW.Gen.PolyOps.rollCoef, PW.Gen.PolyOps.rollOffset, PW.Gen.PolyOps.rolledIsClosed]
+
+/-- `sliced_at_indices(start, stop)`: wraps when `stop <= start` (closed: `np.roll(self.v, -start)[0:len(v) - start +
+    stop]`; open: `ValueError`), else `self.v[start:stop]`: the model's `slicedAtIndices` computes with exactly the
+    generated comparison and coefficients. -/
+theorem gen_sliced_at_indices :
+    (PW.Gen.PolyOps.wrapCmp = .le ∧ PW.Gen.PolyOps.wrapLhs = "stop" ∧ PW.Gen.PolyOps.wrapRhs = "start" ∧
+      PW.Gen.PolyOps.wrapRollCoef = -1 ∧ PW.Gen.PolyOps.wrapRollTerm = "start" ∧ PW.Gen.PolyOps.wrapRollOffset = 0 ∧
+      PW.Gen.PolyOps.keepLenCoef = 1 ∧ PW.Gen.PolyOps.keepStartCoef = -1 ∧ PW.Gen.PolyOps.keepStopCoef = 1 ∧
+      PW.Gen.PolyOps.keepConst = 0) ∧
+    (PW.Gen.PolyOps.plainSliceSrc = "self.v[start:stop]" ∧
+      PW.Gen.PolyOps.wrapRefusesWhen = ["stop <= start", "not self.is_closed"] ∧
+      PW.Gen.PolyOps.wrapRaises = "ValueError") ∧
+    ∀ (p : Polyline K) (start stop : Int), p.slicedAtIndices start stop =
+      if PW.Gen.PolyOps.wrapCmp.test stop start then
+        if p.closed then
+          .ok ⟨pySlice (npRoll p.v (PW.Gen.PolyOps.wrapRollCoef * start + PW.Gen.PolyOps.wrapRollOffset)) 0
+                (PW.Gen.PolyOps.keepLenCoef * (p.numV : Int) + PW.Gen.PolyOps.keepStartCoef * start +
+                  PW.Gen.PolyOps.keepStopCoef * stop + PW.Gen.PolyOps.keepConst), false⟩
+        else .error .ValueError
+      else .ok ⟨pySlice p.v start stop, false⟩ := by
+  refine ⟨⟨by decide, rfl, rfl, by decide, rfl, by decide, by decide, by decide, by decide, by decide⟩,
+    ⟨rfl, by decide, rfl⟩, ?_⟩
+  intro p start stop
+  simp [slicedAtIndices, PW.Gen.Cmp.test, PW.Gen.PolyOps.wrapCmp, PW.Gen.PolyOps.wrapRollCoef,
+    PW.Gen.PolyOps.wrapRollOffset, PW.Gen.PolyOps.keepLenCoef, PW.Gen.PolyOps.keepStartCoef,
+    PW.Gen.PolyOps.keepStopCoef, PW.Gen.PolyOps.keepConst, sub_eq_add_neg]
+
+/-- `sectioned(breakpoints)`: `NotImplementedError` for a closed polyline; starts `[0, *bp]`, ends `[*(bp + 1), num_v]`;
+    `ValueError` when any `end - start - 1 < 1`; sections `v[start:end]`: the model's `sectioned` computes with exactly
+    the generated first start, end offset, comparison and bound. -/
+theorem gen_sectioned :
+    (PW.Gen.PolyOps.sectionClosedRefusal = "self.is_closed" ∧
+      PW.Gen.PolyOps.sectionRaises = ["NotImplementedError", "ValueError"] ∧
+      PW.Gen.PolyOps.breakpointsSrc = "section_breakpoints.astype(np.int64)" ∧ PW.Gen.PolyOps.firstStart = 0 ∧
+      PW.Gen.PolyOps.endCoef = 1 ∧ PW.Gen.PolyOps.endOffset = 1 ∧ PW.Gen.PolyOps.minEdgesCmp = .lt ∧
+      PW.Gen.PolyOps.minEdgesRhs = 1) ∧
+    (PW.Gen.PolyOps.endsSrc = "np.hstack([BP + 1, np.array([self.num_v], dtype=np.int64)])" ∧
+      PW.Gen.PolyOps.edgesPerSectionSrc = "-STARTS + ENDS - 1" ∧ PW.Gen.PolyOps.sectionLoopSrc = "start, end" ∧
+      PW.Gen.PolyOps.sectionSrc =
+        "Polyline(is_closed=False, v=(np.copy if copy_vs else lambda vs: vs)(self.v[start:end]))") ∧
+    ∀ (p : Polyline K) (breakpoints : List Int), p.sectioned breakpoints =
+      if p.closed then .error .NotImplementedError else
+      (let starts : List Int := PW.Gen.PolyOps.firstStart :: breakpoints
+       let ends : List Int :=
+         breakpoints.map (fun b => PW.Gen.PolyOps.endCoef * b + PW.Gen.PolyOps.endOffset) ++ [(p.numV : Int)]
+       let edgesPerSection := List.zipWith (fun s e => e - s - 1) starts ends
+       if edgesPerSection.any (fun c => PW.Gen.PolyOps.minEdgesCmp.test c PW.Gen.PolyOps.minEdgesRhs)
+       then .error .ValueError
+       else .ok (List.zipWith (fun s e => (⟨pySlice p.v s e, false⟩ : Polyline K)) starts ends)) := by
+  refine ⟨⟨rfl, by decide, rfl, by decide, by decide, by decide, by decide, by decide⟩, ⟨rfl, rfl, rfl, rfl⟩, ?_⟩
+  intro p breakpoints
+  simp [sectioned, PW.Gen.Cmp.test, PW.Gen.PolyOps.firstStart, PW.Gen.PolyOps.endCoef, PW.Gen.PolyOps.endOffset,
+    PW.Gen.PolyOps.minEdgesCmp, PW.Gen.PolyOps.minEdgesRhs]
+
+/-- `with_insertions`: `np.insert(self.v, indices, points, axis=0)`; negative indices normalised by
+    `np.where(indices < 0, indices + num_v, indices)`; `bincount(…, minlength=num_v + 1)[:num_v]`; inserted positions
+    through `np.argsort(…, kind="stable")`: the model's `normIndex` and `indicesOfOriginalVertices` compute with exactly
+    the generated comparison and `minlength`, and `indicesOfInsertedPoints` uses the stable argsort. -/
+theorem gen_with_insertions :
+    (PW.Gen.PolyOps.insertSrc = "Polyline(is_closed=self.is_closed, v=np.insert(self.v, indices, points, axis=0))" ∧
+      PW.Gen.PolyOps.insertSamePolyline = true ∧ PW.Gen.PolyOps.negIndexCmp = .lt ∧
+      PW.Gen.PolyOps.negIndexLhs = "indices" ∧ PW.Gen.PolyOps.negIndexRhs = 0 ∧
+      PW.Gen.PolyOps.negIndexThen = "indices + self.num_v" ∧ PW.Gen.PolyOps.minlengthCoef = 1 ∧
+      PW.Gen.PolyOps.minlengthTerm = "self.num_v" ∧ PW.Gen.PolyOps.minlengthOffset = 1 ∧
+      PW.Gen.PolyOps.sortKind = "stable" ∧ PW.Gen.PolyOps.sortOfNorm = true) ∧
+    (PW.Gen.PolyOps.originalIndicesSrc =
+        "np.arange(self.num_v) + np.cumsum(np.bincount(NORM, minlength=self.num_v + 1)[:self.num_v])" ∧
+      PW.Gen.PolyOps.insertedIndicesSrc =
+        "_set(np.empty(K, dtype=np.int64), _0[ORDER], np.arange(K) + NORM[ORDER])") ∧
+    (∀ (n : Nat) (i : Int), normIndex n i =
+      (if PW.Gen.PolyOps.negIndexCmp.test i PW.Gen.PolyOps.negIndexRhs then i + (n : Int) else i).toNat) ∧
+    (∀ (n : Nat) (idx : List Nat), indicesOfOriginalVertices n idx =
+      List.zipWith (· + ·) (List.range n)
+        (cumsum ((bincount idx
+          (PW.Gen.PolyOps.minlengthCoef * (n : Int) + PW.Gen.PolyOps.minlengthOffset).toNat).take n))) ∧
+    (∀ idx : List Nat, indicesOfInsertedPoints idx = scatterRank idx (argsortStable idx)) := by
+  refine ⟨⟨rfl, by decide, by decide, rfl, by decide, rfl, by decide, rfl, by decide, rfl, by decide⟩, ⟨rfl, rfl⟩,
+    ?_, ?_, fun _ => rfl⟩
+  · intro n i
+    simp [normIndex, PW.Gen.Cmp.test, PW.Gen.PolyOps.negIndexCmp, PW.Gen.PolyOps.negIndexRhs]
+  · intro n idx
+    have h : ((1 : Int) * (n : Int) + 1).toNat = n + 1 := by omega
+    simp only [indicesOfOriginalVertices, PW.Gen.PolyOps.minlengthCoef, PW.Gen.PolyOps.minlengthOffset, h]
+
+/-- `flipped`, `join`, `index_of_vertex` (default `atol=1e-08`) and `aligned_with` (`num_v < 2`, scale factor `< 0`):
+    the expressions and literals the model's `flipped`, `join`, `indexOfVertex`, `alignedWith` were written from. -/
+theorem gen_other_methods :
+    PW.Gen.PolyOps.flippedSrc = "Polyline(is_closed=self.is_closed, v=np.flipud(self.v))" ∧
+    (PW.Gen.PolyOps.joinEmptyCmp = .eq ∧ PW.Gen.PolyOps.joinEmptyLhs = "len(polylines)" ∧
+      PW.Gen.PolyOps.joinEmptyRhs = 0 ∧
+      PW.Gen.PolyOps.joinClosedRefusal = "any([polyline.is_closed for polyline in polylines])" ∧
+      PW.Gen.PolyOps.joinRaises = ["ValueError", "ValueError"] ∧
+      PW.Gen.PolyOps.joinSrc = "cls(np.vstack([polyline.v for polyline in polylines]), is_closed=is_closed)") ∧
+    (PW.Gen.PolyOps.indexOfVertexAtol = (1 : Rat) / 100000000 ∧
+      PW.Gen.PolyOps.indexOfVertexSrc = "_only(np.isclose(-point + self.v, 0, atol=atol).all(axis=1).nonzero())[0]" ∧
+      PW.Gen.PolyOps.indexOfVertexRaises = "ValueError") ∧
+    (PW.Gen.PolyOps.alignShortCmp = .lt ∧ PW.Gen.PolyOps.alignShortLhs = "self.num_v" ∧
+      PW.Gen.PolyOps.alignShortRhs = 2 ∧ PW.Gen.PolyOps.alignFlipCmp = .lt ∧
+      PW.Gen.PolyOps.alignFlipLhs = "vg.scale_factor(vg.project(self.v[-1] - self.v[0], onto=vector), vector)" ∧
+      PW.Gen.PolyOps.alignFlipRhs = 0) :=
+  ⟨rfl, ⟨by decide, rfl, by decide, rfl, by decide, rfl⟩, ⟨rfl, rfl, rfl⟩, ⟨by decide, rfl, by decide, by decide, rfl, by decide⟩⟩
 
 end PW.C09
